@@ -782,7 +782,7 @@ func (r *Runner) resolveSlashBinaryExpression(v1, v2 interface{}) (interface{}, 
 func (r *Runner) resolvePercentBinaryExpression(v1, v2 interface{}) (interface{}, error) {
 	n1 := convToNumber(v1)
 	n2 := convToNumber(v2)
-	return newDecimalBig().Rem(n1, n2), nil
+	return remainder(n1, n2), nil
 }
 
 func (r *Runner) resolveAmpersandBinaryExpression(v1, v2 interface{}) (interface{}, error) {
@@ -1123,6 +1123,12 @@ func funAbs(v *decimal.Big) (*decimal.Big, error) {
 }
 
 func funCeil(v *decimal.Big) (*decimal.Big, error) {
+	if belowOneTenth(v) {
+		if v.Sign() > 0 {
+			return wholeNear(v, true), nil
+		}
+		return newDecimalBig(), nil
+	}
 	result := newDecimalBig()
 	decimal.Context64.Ceil(result, v)
 	return result, nil
@@ -1135,6 +1141,9 @@ func funExp(v *decimal.Big) (*decimal.Big, error) {
 }
 
 func funFloor(v *decimal.Big) (*decimal.Big, error) {
+	if belowOneTenth(v) {
+		return wholeNear(v, v.Sign() < 0), nil
+	}
 	result := newDecimalBig()
 	decimal.Context64.Floor(result, v)
 	return result, nil
@@ -1173,19 +1182,25 @@ func funMin(nums ...*decimal.Big) (*decimal.Big, error) {
 }
 
 func funRound(v *decimal.Big) (*decimal.Big, error) {
+	if belowOneTenth(v) {
+		return wholeNear(v, false), nil
+	}
 	ctx := decimal.Context128
 	ctx.RoundingMode = decimal.ToNearestAway
 	return ctx.RoundToInt(newDecimalBig().Copy(v)), nil
 }
 
 func funRoundBank(v *decimal.Big) (*decimal.Big, error) {
+	if belowOneTenth(v) {
+		return wholeNear(v, false), nil
+	}
 	ctx := decimal.Context128
 	ctx.RoundingMode = decimal.ToNearestEven
 	return ctx.RoundToInt(newDecimalBig().Copy(v)), nil
 }
 
 func funRoundCash(v, places *decimal.Big) (*decimal.Big, error) {
-	mv := newDecimalBig().Rem(v, decimal.New(1, 0))
+	mv := remainder(v, decimal.New(1, 0))
 	if mv.Cmp(decimal.New(5, -2)) <= 0 {
 		return funCeil(v)
 	} else {
